@@ -55,6 +55,7 @@ SIM_CHECKS = {
         'runs': {'quick': 1500000, 'thorough': 75000000},
         'batch': {'quick': 15000, 'thorough': 250000},
         'cells': 'c14',
+        'c14_enum': True,
         'rule': ('Each evaluation is one seeded run of the real SystemClockLoop with a scripted reference clock '
                  '(per-request fault plan: valid / invalid / lost / late / jump / same-value / instant / stale / '
                  'ready-at-timeout race), a durable backup clock in three arrangements, and a seeded loop() schedule '
@@ -242,6 +243,44 @@ def c13_sweep(binary):
 HANG_S = 6
 
 
+def c14_enum(binary, depth):
+    """Thorough-tier supplement for C14: every op sequence of the given depth over {LOOP, ADV 1, ADV 400, ADVDL -1/0/+1,
+    SET} x every outcome combination of the first three requests {valid at once, valid after 400 ms, invalid, lost}
+    x 4 period configurations x {distinct, same, no} reference arrangement, each followed by the fault-free drain."""
+    import subprocess
+    import re as _re
+    from concurrent.futures import ThreadPoolExecutor
+    t0 = time.time()
+    jobs = 768
+
+    def job(j):
+        p = subprocess.run([binary, 'enum14', str(j), str(jobs), str(depth)], stdout=subprocess.PIPE,
+                           stderr=subprocess.PIPE, text=True, timeout=7200)
+        return p.stdout
+
+    traces = 0
+    viol = None
+    with ThreadPoolExecutor(max_workers=int(os.environ.get('VERIF_WORKERS', '0') or 0) or min(16, os.cpu_count() or 4)) as ex:
+        for out in ex.map(job, range(jobs)):
+            m = _re.search(r'ENUM traces=(\d+)', out)
+            if m:
+                traces += int(m.group(1))
+            mv = _re.search(r'ENUMVIOL class=(\S+) msg="(.*)"', out)
+            mt = _re.search(r'ENUMTRACE (.*)', out)
+            if mv and mt and viol is None:
+                trace = mt.group(1).encode().decode('unicode_escape')
+                o = K.run_trace(binary, trace)
+                if not o.failed:
+                    raise K.HarnessError('enumeration violation does not reproduce as a trace')
+                mn, tests = K.minimise(binary, trace, o.vclass, timeout=HANG_S)
+                viol = {'trace': trace, 'min_trace': mn, 'tests': tests, 'vclass': o.vclass, 'msg': o.msg}
+    return ({'depth': depth, 'traces_executed': traces,
+             'alphabet': ['LOOP', 'ADV 1', 'ADV 400', 'ADVDL -1', 'ADVDL 0', 'ADVDL 1', 'SET'],
+             'request_outcomes': 'first three requests x {valid at once, valid after 400 ms, invalid after 400 ms, lost}',
+             'configurations': '4 (sync, initial, time-out) x {distinct, same, none}', 'exhaustive': viol is None,
+             'wall_s': round(time.time() - t0, 1)}, viol)
+
+
 def triage(prop, profile, variant, binary, tier, verif_seed, v, needs_history_rule=False, crash_note_ops=()):
     """Confirm, minimise, re-confirm in a fresh process, match against known findings.
     Returns ('violation', replay_path) | ('known', entry) | ('note', text)."""
@@ -427,6 +466,22 @@ def run_sim_check(prop, tier, verif_seed, spec=None, runs_override=None):
             K.log('[%s] sweep: %s' % (prop, sv['msg']))
             violations += 1
             exit_code = 1
+    enum14 = None
+    if spec.get('c14_enum') and tier == 'thorough' and exit_code == 0 and not runs_override:
+        enum14 = []
+        for variant, depth in (('plain', 6), ('plain32', 7)):
+            info, ev = c14_enum(B.build(variant), depth)
+            info['build_variant'] = variant
+            enum14.append(info)
+            if ev:
+                v = {'run': -1, 'seed': 0, 'vclass': ev['vclass'], 'msg': ev['msg'], 'op': -1}
+                path = K.write_replay(prop, 'clock-sync', tier, verif_seed, v, ev['trace'], ev['min_trace'], variant, ev['tests'],
+                                      {'found_by': 'bounded exhaustive enumeration, depth %d' % depth})
+                print('VIOLATION property=%s replay=%s' % (prop, path))
+                K.log('[%s] enumeration: %s %s' % (prop, ev['vclass'], ev['msg']))
+                violations += 1
+                exit_code = 1
+                break
     py_half = None
     if spec.get('py_stage') and exit_code == 0:
         from pysim import check as P
@@ -497,6 +552,8 @@ def run_sim_check(prop, tier, verif_seed, spec=None, runs_override=None):
         cov['python_half'] = py_half
     if sweep:
         cov['exhaustive_phase_gap_sweep'] = sweep
+    if enum14:
+        cov['bounded_exhaustive_enumeration'] = enum14
     doc = {
         'property_id': prop, 'tier': tier, 'seed': verif_seed, 'level': 'exploration',
         'coverage': cov, 'assumptions': spec['assumptions'], 'wall_s': round(wall, 2),
